@@ -28,7 +28,14 @@ MAPS = [
     # keys whose first segment carries a namespace (two of them spell built-in functions), alone, as path roots and as owner prefixes
     {"geo.length": "gl", "geo.distance": "gd/x", "author.info": "ai", "author.info/name": "ain", "self.t": "st", "a": "ns.a", "ns.b/c": "b"},
     {"ns.a": "a", "a": "ns.a", "ns.a/b": "ns.a/b", "x.y.z": "xyz", "x.y.z/a": "x.y.w/a"},
+    # targets that are CALLS of the functions the filters apply to the alias (tolower(name) with name -> tolower(nm) is tolower(tolower(nm)): the filter's own call stays)
+    {"name": "tolower(nm)", "date": "date(created)", "a": "trim(a2)", "x/a": "round(v)", "b": "floor(b2)", "c": "toupper(c2)", "t": "time(ts)", "year": "year(d)", "length": "length(s)",
+     "time": "ceiling(tm)", "p": "not q", "k1": "-k2"},
 ]
+CALL_FILTERS = ["tolower(name) eq 'bob'", "date(date) eq 2020-01-01", "trim(a) eq 'x'", "round(x/a) eq 1", "floor(b) eq 1", "toupper(c) eq 'X'", "time(t) eq 12:00:00", "year(year) eq 1",
+                "length(length) eq 1", "ceiling(time) eq 2", "tolower(tolower(name)) eq 'x'", "concat(name, name) eq 'x'", "tolower(toupper(name)) eq tolower(name)", "not (trim(a) eq a)",
+                "not p", "not (not p)", "-k1 eq 1", "-(-k1) eq k1", "trim(trim(trim(a))) eq 'x'", "tolower(name) in (tolower(name), name)", "c/any(z: tolower(name) eq toupper(c))",
+                "round(round(x/a)) eq floor(floor(b))", "f.g(n=tolower(name), m=name) eq 1", "tolower(x/a) eq 'q' and round(name) eq 1"]
 NS_FILTERS = ["geo.length eq 1", "geo.length/a eq geo.distance", "author.info/name eq 'x' and author.info eq 1", "author.info/name/first eq author.info/other",
               "author.info/any(x: x/a eq author.info/name)", "self.t/any()", "self.t/all(t: t/name eq self.t)", "k.f(q=author.info, p=geo.length) eq geo.length(a)", "k.f(author.info, geo.length) eq 1",
               "geo.length in (geo.distance, author.info/name, 1)", "ns.a eq a and ns.a/b eq ns.b/c", "not (ns.b/c/d gt -geo.length)", "x.y.z eq x.y.z/a and x.y.z/a/b eq y.z",
@@ -75,7 +82,7 @@ def run(ctx):
             targeted.append(impl.real_parse_ast(f))
         except Exception:  # noqa
             pass
-    for f in NS_FILTERS:
+    for f in NS_FILTERS + CALL_FILTERS:
         targeted.append(impl.real_parse_ast(f))
     nodes += targeted
     targeted_keys = {enc(x) for x in targeted}
